@@ -15,7 +15,7 @@ from .prov import var_table
 
 RULE = 'SCRATCHRESET'
 FLOOR = 20
-ANCHORS = ['ExplicitTreeAutCore::Intersection', 'ExplicitTreeAutCore::ReindexStates', 'BDDBUTreeAutCore::ReindexStates']
+ANCHORS = []   # instances move into helpers/lambdas under extraction refactorings (refactor/F-6); health is judged by the floor
 
 FILLS = ('push_back', 'insert', 'emplace_back', 'emplace', 'push_front')
 RESETS = ('clear', 'resize', 'assign', 'swap', 'pop_back', 'pop_front', 'erase')
